@@ -176,6 +176,7 @@ class Engine:
         self.event_kinds = {}
         self.inlined = set()
         self.notes = []
+        self.shared_types = {}
 
     def intern(self, obj, key=None):
         key = key if key is not None else id(obj)
